@@ -15,6 +15,8 @@ THEOREMS = [
     "Ural.Props.C02.canon_default_port",
     "Ural.Props.C02.hex_case_irrelevant",
     "Ural.Props.C02.host_idempotent",
+    "Ural.Props.C02.canonOpt_idempotent",
+    "Ural.Props.C02.canonQuery_idempotent",
 ]
 TABLE_OBLIGATIONS = []
 RULE = (
@@ -38,7 +40,9 @@ ASSUMPTIONS = [
     "URLs that the parser rejects are outside the property",
 ]
 UNPROVED = (
-    "idempotence of the whole function, escape-equivalence (%41 vs A, raw space vs %20), dot-segment "
+    "idempotence is proved per component for userinfo items, fragment, query (unquoted mode) and host; "
+    "for the path (normpath) and in quoted mode, and for the whole function (re-parse of the printed URL), "
+    "escape-equivalence (%41 vs A, raw space vs %20), dot-segment "
     "insertion, punycode vs Unicode spelling of a label (beyond the host rule's idempotence) and the mode "
     "round trips are not theorems: decided on every run by the oracle over every transformation of the "
     "statement and by the model-vs-implementation comparison of both spellings"
